@@ -16,6 +16,7 @@ import (
 	"github.com/parquet-go/parquet-go"
 
 	"verifharness/core"
+	"verifharness/drv"
 	"verifharness/gen"
 )
 
@@ -75,7 +76,10 @@ func RunC02(ctx *core.Ctx) {
 	}
 	var wg sync.WaitGroup
 	sem := make(chan struct{}, 16)
-	for _, e := range gen.Catalog {
+	// the types with Go maps too (MAP groups, struct-valued maps: leaves four levels down): their
+	// files get every structural and count check; the stream comparison does not apply (entry order)
+	entries := append(append([]*gen.Entry{}, gen.Catalog...), gen.MapCatalog...)
+	for _, e := range entries {
 		wg.Add(1)
 		sem <- struct{}{}
 		go func(e *gen.Entry) {
@@ -125,80 +129,103 @@ func RunC02(ctx *core.Ctx) {
 					opts = append(append([]parquet.WriterOption{}, opts...), parquet.Compression(gen.Codecs[name]))
 					desc += " filecodec=" + name
 				}
-				mode := []string{"direct", "direct", "reset-reuse", "copy-from-file", "copy-from-buffer"}[r.Intn(5)]
+				mode := c02Modes[r.Intn(len(c02Modes))]
 				if k == 1 {
 					mode = "direct"
 				}
-				file, err := c02Write(e, rows, mode, opts, c01Batches(r, n), r)
+				var srcOpts []parquet.WriterOption
+				if mode == "reencode-from-file" {
+					sc := gen.RandWriterCfg(r)
+					srcOpts = sc.Opts
+					desc += " | source file: " + sc.Desc
+				}
+				file, err := c02Write(e, rows, mode, opts, srcOpts, c01Batches(r, n), r)
 				detail := map[string]any{"type": e.Name, "config": desc, "mode": mode, "rows": n, "seed_stream": "c02/" + e.Name, "case_index": k}
 				if err != nil {
 					ctx.Fail("L1", "write-error mode="+mode+" "+errClass(err), "writing valid rows failed: "+err.Error(), detail)
 					continue
 				}
-				path := filepath.Join(tmp, fmt.Sprintf("%s-%d.parquet", e.Name, k))
-				if err := os.WriteFile(path, file, 0o644); err != nil {
-					ctx.Fail("L2", "tmp-write", err.Error(), nil)
-					continue
-				}
-				abs, _ := filepath.Abs(path)
-				answers, err := d.AskMany([]string{fmt.Sprintf("file.check %s %d", abs, cfg.MaxRows), "file.dump " + abs})
-				os.Remove(path)
-				if err != nil {
-					ctx.Fail("L2", "driver-error", err.Error(), nil)
+				if !c02Judge(ctx, d, tmp, e, rows, file, mode, desc, cfg.MaxRows, k, n, detail) {
 					return
 				}
-				ans, dump := answers[0], answers[1]
-				ctx.Hist("mode", mode)
-				switch {
-				case strings.HasPrefix(ans, "ok "):
-					sum := ans[3:]
-					multi := !strings.Contains(sum, "rg=1 ") && !strings.Contains(sum, "rg=0 ")
-					var chunks, data int
-					fmt.Sscanf(sum[strings.Index(sum, "chunks="):], "chunks=%d data=%d", &chunks, &data)
-					if i := strings.Index(sum, "decoded="); i >= 0 {
-						var decoded, capped int
-						fmt.Sscanf(sum[i:], "decoded=%d capped=%d", &decoded, &capped)
-						ctx.HistN("data-pages", "value-decoded (none/snappy/gzip)", int64(decoded))
-						ctx.HistN("data-pages", "structural only (other codec)", int64(data-decoded-capped))
-						ctx.HistN("data-pages", "capped", int64(capped))
-					}
-					ctx.Case(e.Name+desc+mode+fmt.Sprint(k, n), multi || data > chunks)
-					if k == 0 {
-						ctx.Sample(map[string]any{"type": e.Name, "config": desc, "mode": mode, "rows": n, "spec_reader": sum})
-					}
-					gs, gerr := c02GoSummary(file)
-					if gerr != nil {
-						ctx.Fail("L1", "open-error "+errClass(gerr), "the library cannot open its own file: "+gerr.Error(), detail)
-					} else {
-						// compare the fields both summaries carry
-						var rg, ch, a, b, c2, v2, oi, ci int
-						fmt.Sscanf(sum, "rg=%d chunks=%d data=%d dict=%d crc=%d v2=%d oi=%d ci=%d", &rg, &ch, &a, &b, &c2, &v2, &oi, &ci)
-						if want := fmt.Sprintf("rg=%d chunks=%d oi=%d ci=%d", rg, ch, oi, ci); want != gs {
-							detail["spec_reader"], detail["library_reader"] = want, gs
-							ctx.Fail("L2", "spec-reader-vs-library-metadata", "the Lean spec reader and the library's reader see different file structure", detail)
-						}
-					}
-				case strings.HasPrefix(ans, "bad "):
-					ctx.Case(e.Name+desc+mode+fmt.Sprint(k, n), true)
-					parts := strings.SplitN(ans, " | ", 2)
-					for _, p := range strings.Split(parts[1], " ; ") {
-						detail["problem"] = p
-						detail["all_problems"] = parts[1]
-						ctx.Fail("L1", "malformed mode="+mode+": "+c02Class(p), "file metadata does not describe the bytes present: "+p, detail)
-					}
-				default:
-					ctx.Case(e.Name+desc+mode+fmt.Sprint(k, n), true)
-					detail["answer"] = ans
-					ctx.Fail("L1", "unparsable mode="+mode+": "+c02Class(ans), "the spec reader cannot parse the file: "+ans, detail)
-				}
-				c02Values(ctx, e, rows, file, mode, strings.HasPrefix(ans, "ok "), dump, detail)
 			}
 		}(e)
 	}
 	wg.Wait()
 }
 
-func c02Write(e *gen.Entry, rows reflect.Value, mode string, opts []parquet.WriterOption, batches []int, r *rand.Rand) (file []byte, err error) {
+// c02Judge runs the Lean spec reader over one written file and files every clause it reports
+// (L1), compares the structure summary with the library's own reader (L2) and the decoded Dremel
+// streams with the reference shredder's (L1). false = the driver is gone.
+func c02Judge(ctx *core.Ctx, d *drv.Driver, tmp string, e *gen.Entry, rows reflect.Value, file []byte, mode, desc string, maxRows int64, k, n int, detail map[string]any) bool {
+	path := filepath.Join(tmp, fmt.Sprintf("%s-%d.parquet", e.Name, k))
+	if err := os.WriteFile(path, file, 0o644); err != nil {
+		ctx.Fail("L2", "tmp-write", err.Error(), nil)
+		return true
+	}
+	abs, _ := filepath.Abs(path)
+	answers, err := d.AskMany([]string{fmt.Sprintf("file.check %s %d", abs, maxRows), "file.dump " + abs})
+	os.Remove(path)
+	if err != nil {
+		ctx.Fail("L2", "driver-error", err.Error(), nil)
+		return false
+	}
+	ans, dump := answers[0], answers[1]
+	ctx.Hist("mode", mode)
+	switch {
+	case strings.HasPrefix(ans, "ok "):
+		sum := ans[3:]
+		multi := !strings.Contains(sum, "rg=1 ") && !strings.Contains(sum, "rg=0 ")
+		var chunks, data int
+		fmt.Sscanf(sum[strings.Index(sum, "chunks="):], "chunks=%d data=%d", &chunks, &data)
+		if i := strings.Index(sum, "decoded="); i >= 0 {
+			var decoded, capped int
+			fmt.Sscanf(sum[i:], "decoded=%d capped=%d", &decoded, &capped)
+			ctx.HistN("data-pages", "value-decoded (none/snappy/gzip)", int64(decoded))
+			ctx.HistN("data-pages", "structural only (other codec)", int64(data-decoded-capped))
+			ctx.HistN("data-pages", "capped", int64(capped))
+		}
+		ctx.Case(e.Name+desc+mode+fmt.Sprint(k, n), multi || data > chunks)
+		if k == 0 {
+			ctx.Sample(map[string]any{"type": e.Name, "config": desc, "mode": mode, "rows": n, "spec_reader": sum})
+		}
+		gs, gerr := c02GoSummary(file)
+		if gerr != nil {
+			ctx.Fail("L1", "open-error "+errClass(gerr), "the library cannot open its own file: "+gerr.Error(), detail)
+		} else {
+			// compare the fields both summaries carry
+			var rg, ch, a, b, c2, v2, oi, ci int
+			fmt.Sscanf(sum, "rg=%d chunks=%d data=%d dict=%d crc=%d v2=%d oi=%d ci=%d", &rg, &ch, &a, &b, &c2, &v2, &oi, &ci)
+			if want := fmt.Sprintf("rg=%d chunks=%d oi=%d ci=%d", rg, ch, oi, ci); want != gs {
+				detail["spec_reader"], detail["library_reader"] = want, gs
+				ctx.Fail("L2", "spec-reader-vs-library-metadata", "the Lean spec reader and the library's reader see different file structure", detail)
+			}
+		}
+	case strings.HasPrefix(ans, "bad "):
+		ctx.Case(e.Name+desc+mode+fmt.Sprint(k, n), true)
+		parts := strings.SplitN(ans, " | ", 2)
+		for _, p := range strings.Split(parts[1], " ; ") {
+			detail["problem"] = p
+			detail["all_problems"] = parts[1]
+			ctx.Fail("L1", "malformed mode="+mode+": "+c02Class(p), "file metadata does not describe the bytes present: "+p, detail)
+		}
+	default:
+		ctx.Case(e.Name+desc+mode+fmt.Sprint(k, n), true)
+		detail["answer"] = ans
+		ctx.Fail("L1", "unparsable mode="+mode+": "+c02Class(ans), "the spec reader cannot parse the file: "+ans, detail)
+	}
+	c02Values(ctx, e, rows, file, mode, strings.HasPrefix(ans, "ok "), dump, detail)
+	return true
+}
+
+// c02Modes: the ways a file comes into being. "copy-from-file" hands the row groups of a file
+// written with the SAME options to WriteRowGroup (chunks copied verbatim); "reencode-from-file"
+// hands over the row groups of a file written with OTHER options (page version, codec, limits),
+// so that the writer re-encodes the values column by column or row by row; "copy-from-buffer"
+// writes a GenericBuffer through WriteRowGroup (column-wise re-encode of in-memory columns).
+var c02Modes = []string{"direct", "direct", "reset-reuse", "copy-from-file", "copy-from-buffer", "reencode-from-file"}
+
+func c02Write(e *gen.Entry, rows reflect.Value, mode string, opts, srcOpts []parquet.WriterOption, batches []int, r *rand.Rand) (file []byte, err error) {
 	defer func() {
 		if x := recover(); x != nil {
 			err = fmt.Errorf("PANIC: %v", x)
@@ -229,9 +256,12 @@ func c02Write(e *gen.Entry, rows reflect.Value, mode string, opts []parquet.Writ
 			}
 		}
 		err = w.Close()
-	case "copy-from-file":
+	case "copy-from-file", "reencode-from-file":
 		var src bytes.Buffer
-		if err = e.WriteGeneric(&src, rows.Interface(), batches, opts...); err != nil {
+		if mode == "copy-from-file" {
+			srcOpts = opts
+		}
+		if err = e.WriteGeneric(&src, rows.Interface(), batches, srcOpts...); err != nil {
 			return nil, err
 		}
 		f, err2 := parquet.OpenFile(bytes.NewReader(src.Bytes()), int64(src.Len()))
@@ -312,7 +342,7 @@ func c02ColumnInfo(file []byte, ncol int) []string {
 func c02Values(ctx *core.Ctx, e *gen.Entry, rows reflect.Value, file []byte, mode string, checkOK bool, dump string, detail map[string]any) {
 	paths := e.Schema.Columns()
 	var sh gen.Shredder
-	for i := 0; i < rows.Len(); i++ {
+	for i := 0; i < rows.Len() && !e.HasMap; i++ {
 		sh.ShredRow(e.Schema, rows.Index(i))
 	}
 	expected := sh.Cols
@@ -340,6 +370,11 @@ func c02Values(ctx *core.Ctx, e *gen.Entry, rows reflect.Value, file []byte, mod
 			ctx.Fail("L1", "values-undecodable mode="+mode+": "+c02Class(strings.TrimPrefix(dump, "err ")), "file.check accepts the file but file.dump cannot decode it: "+dump, with(map[string]any{"dump_answer": dump}))
 		}
 		ctx.Hist("values", "dump-error")
+		return
+	}
+	if e.HasMap {
+		// the entry order of a Go map is unspecified: no stream to compare with
+		ctx.Hist("values", "map-type (decodable, streams not compared)")
 		return
 	}
 	body := strings.TrimPrefix(strings.TrimPrefix(dump, "ok"), " ")
